@@ -95,6 +95,11 @@ def hierarchy_cases(ctx: Ctx) -> list[dict]:
         ctx.notes["hierarchies_sampled_4_classes"] = len(pick)
         jobs += [(c, 12) for c in pick]
         n_sim = 100
+    # tuple family: every hierarchy over 2 user classes with the universe of tuples of arity 0..3
+    # that share prefixes, alone and nested in generics / tuples / unions (TypeSystem.TupleUniverse)
+    tup = ctx.behaviours("MC_TypeSystem", "MC_TypeSystem_tuples.cfg", timeout=3000)
+    ctx.notes["hierarchies_tuple_family_2_classes"] = len(tup)
+    jobs += [(c, 4 if ctx.quick else 10) for c in tup]
     sims = ctx.simulate("MC_TypeSystem", "MC_TypeSystem_sim.cfg", num=n_sim, depth=8, timeout=3000)
     import json
     seen = set()
@@ -141,6 +146,91 @@ def shape(t) -> str:
 
 def any_free(t) -> bool:
     return t["k"] != "any" and all(any_free(x) for x in t["a"])
+
+
+class _Model:
+    """Python rendering of SubR / DistR of TypeSystemOps.tla for ONE purpose: the reporting helper
+    picks, among the pairs that falsify a law, one that the named deviation does (not) explain, so
+    that the shape in the signature belongs to the clause TLC found violated.  Never a verdict."""
+
+    ARITY = {"list": 1, "set": 1, "dict": 2}
+
+    def __init__(self, ev: dict):
+        self.anyd = ev["anyd"]
+        succ: dict[str, set] = {}
+        for a, b in ev["edges"]:
+            succ.setdefault(a, set()).add(b)
+        self.plen: dict[tuple, int] = {}
+        for c in ev["classes"]:
+            seen, frontier, n = {c}, {c}, 0
+            while frontier:
+                for x in frontier:
+                    self.plen[c, x] = n
+                frontier = {y for x in frontier for y in succ.get(x, ())} - seen
+                seen |= frontier
+                n += 1
+
+    def sub(self, strict: bool, l, r) -> bool:
+        if r["k"] == "any":
+            return True
+        if r["k"] == "union" and l["k"] != "union":
+            return any(self.sub(strict, l, x) for x in r["a"])
+        k = l["k"]
+        if k == "any":
+            return True
+        if k == "none":
+            return r["k"] == "none"
+        if k == "inst":
+            if r["k"] != "inst" or (r["c"], l["c"]) not in self.plen:
+                return False
+            ar = self.ARITY.get(l["c"], 0)
+            if ar and ar == self.ARITY.get(r["c"], 0):
+                return all(self.sub(strict, x, y) and self.sub(strict, y, x) for x, y in zip(l["a"], r["a"]))
+            return True
+        if k == "tuple":
+            return (r["k"] == "tuple" and len(l["a"]) == len(r["a"])
+                    and all(self.sub(strict, x, y) for x, y in zip(l["a"], r["a"])))
+        return (all if strict else any)(self.sub(strict, x, r) for x in l["a"])
+
+    @staticmethod
+    def _sum(q):
+        return None if any(x is None for x in q) else sum(q)
+
+    @staticmethod
+    def _min(q):
+        q = [x for x in q if x is not None]
+        return min(q) if q else None
+
+    def dist(self, dev: set, t, s):
+        k = t["k"]
+        if k == "any":
+            return self.anyd
+        if k == "union":
+            return self._min([self.dist(dev, x, s) for x in t["a"]])
+        if s["k"] == "union":
+            return self._min([self.dist(dev, t, x) for x in s["a"]])
+        if k in ("none", "tuple"):
+            if s["k"] == "any":
+                return None if "DistUndefinedForAnyBelowNoneOrTuple" in dev else self.anyd
+            if k == "none":
+                return 0 if s["k"] == "none" else None
+            if s["k"] == "tuple" and len(s["a"]) == len(t["a"]):
+                return self._sum([self.dist(dev, x, y) for x, y in zip(t["a"], s["a"])])
+            return None
+        if s["k"] == "any":
+            return self.anyd
+        if s["k"] != "inst":
+            return None
+        p = self.plen.get((t["c"], s["c"]))
+        if t["a"] and s["a"]:
+            q = self._sum([self.dist(dev, x, y) for x, y in zip(t["a"], s["a"])])
+            if "DistCovariantArgs" in dev:
+                return None if p is None or q is None else p + q
+            return q if self.sub(False, s, t) else None
+        return p
+
+    def known_generic_args_only(self, t, s) -> bool:
+        return self.dist({"DistCovariantArgs"}, t, s) is not None and self.dist(set(), t, s) is None
 
 
 def witness(ev: dict, clause: str) -> tuple[str, str]:
@@ -202,12 +292,17 @@ def witness(ev: dict, clause: str) -> tuple[str, str]:
                     kind = "builtin" if cs[i] in ad.BUILTIN_NAMES and cs[j] in ad.BUILTIN_NAMES else "user"
                     return kind, f"is_subclass({cs[i]}, {cs[j]}) = {subc[i][j]}, issubclass+tower = {reach[i][j]}"
     if base == "DistDefinedOnlyWhenMaybeSub":
-        for i in n:
-            for j in n:
-                if dist[i][j] != -1 and not maybe[j][i]:
-                    return (f"{shape(ut[i])}-{shape(ut[j])}",
-                            f"subtype_distance({tstr(ut[i])}, {tstr(ut[j])}) = {dist[i][j]} but not "
-                            f"is_maybe_subtype({tstr(ut[j])}, {tstr(ut[i])})")
+        model = _Model(ev)
+        want_known = clause.endswith("_KnownGenericArgsOnly")
+        pairs = [(i, j) for i in n for j in n if dist[i][j] != -1 and not maybe[j][i]]
+        # a pair of the kind the violated clause talks about; any falsifying pair otherwise
+        pick = next((p for p in pairs if model.known_generic_args_only(ut[p[0]], ut[p[1]]) == want_known),
+                    pairs[0] if pairs else None)
+        if pick:
+            i, j = pick
+            return (f"{shape(ut[i])}-{shape(ut[j])}",
+                    f"subtype_distance({tstr(ut[i])}, {tstr(ut[j])}) = {dist[i][j]} but not "
+                    f"is_maybe_subtype({tstr(ut[j])}, {tstr(ut[i])})")
     if base == "DistZeroOnIdentity":
         for i in n:
             if any_free(ut[i]) and dist[i][i] != 0:
@@ -252,7 +347,9 @@ def run(ctx: Ctx) -> None:
                 "classes / object / int / list enumerated by TLC from MC_TypeSystem, plus sampled 4-class and "
                 "simulated 5-class hierarchies) rendered as a module and analysed by the real "
                 "generate_test_cluster, with a universe of proper types of depth <= 2 (TLC universe + random "
-                "types); evaluation = one recorded answer of is_subtype / is_maybe_subtype / subtype_distance "
+                "types), plus every hierarchy over 2 user classes with the tuple family (tuples of arity 0..3 "
+                "with shared prefixes, alone and nested in list / set / dict / tuple / union; the empty tuple "
+                "is built directly, no annotation denotes it); evaluation = one recorded answer of is_subtype / is_maybe_subtype / subtype_distance "
                 "/ is_subclass; non-trivial = distinct (hierarchy, ordered type pair) whose is_subtype or "
                 "subtype_distance answer is positive/defined")
     ctx.assumptions = ["classes are plain classes (no metaclass __subclasscheck__, no ABC.register)",
@@ -265,7 +362,8 @@ def run(ctx: Ctx) -> None:
     _ = ctx.work            # create the scratch directory before any thread needs it
     main_cfg = "TypeSystem.cfg" if ctx.quick else "TypeSystem_thorough.cfg"
     pool = ThreadPoolExecutor(max_workers=1)
-    design = pool.submit(design_runs, ctx, [main_cfg, "TypeSystem_dev_static.cfg"])   # overlaps with the replay
+    design = pool.submit(design_runs, ctx, [main_cfg, "TypeSystem_tuples.cfg",
+                                            "TypeSystem_dev_static.cfg"])   # overlaps with the replay
     jobs = hierarchy_cases(ctx)
     traces, behs = run_cases(ctx, jobs)
     ctx.exhaustive = True
